@@ -68,6 +68,64 @@ def exTree : Forest Unit :=
 
 example : (applyFC exSchema none [] exTree).2.length = 3 := by decide
 
+/-! ## the proxy carries no typing state of its own -/
+
+/-- the schema only ever goes from "not (fully) valid" to "valid" (`schema.build()`); `seen` = it
+has already been valid -/
+def MonotoneFrom (seen : Bool) : List (Bool × Forest Unit) → Prop
+  | [] => True
+  | (v, _) :: rest => (seen = true → v = true) ∧ MonotoneFrom (seen || v) rest
+
+theorem runHistory_eq_fresh (s : Schema) : ∀ (hist : List (Bool × Forest Unit)) (p : Proxy) (seen : Bool),
+    (p.flag = true → seen = true) → MonotoneFrom seen hist →
+    runHistory s p hist = hist.map fun vt => (evalStep s Proxy.fresh vt.1 vt.2).1
+  | [], _, _, _, _ => rfl
+  | (v, t) :: rest, p, seen, hp, hm => by
+    obtain ⟨hv, hrest⟩ := hm
+    simp only [runHistory, evalStep, List.map_cons, Proxy.isFullyValid, Proxy.fresh]
+    cases hf : p.flag with
+    | true =>
+      have hvt : v = true := hv (hp hf)
+      subst hvt
+      simp only [if_true, Bool.false_eq_true, if_false]
+      congr 1
+      exact runHistory_eq_fresh s rest p (seen || true) (fun _ => by simp) hrest
+    | false =>
+      simp only [Bool.false_eq_true, if_false]
+      congr 1
+      exact runHistory_eq_fresh s rest ⟨v⟩ (seen || v) (fun h => by simp at h; simp [h]) hrest
+
+/-- **typing is a function of (schema state, instance), not of the proxy's history**: any sequence
+of evaluations through one long-lived proxy — over different instances, before and after the schema
+is built — annotates every instance exactly as a fresh proxy would at that moment.  (As the code is:
+`is_fully_valid()` caches only a positive answer and recomputes otherwise.) -/
+theorem proxy_history_eq_fresh (s : Schema) (hist : List (Bool × Forest Unit))
+    (hm : MonotoneFrom false hist) :
+    runHistory s Proxy.fresh hist = hist.map fun vt => applySchemaV vt.1 s vt.2 := by
+  rw [runHistory_eq_fresh s hist Proxy.fresh false (fun h => by simp [Proxy.fresh] at h) hm]
+  apply List.map_congr_left
+  intro vt _
+  simp [evalStep, Proxy.isFullyValid, Proxy.fresh]
+
+/-- TEST: unbuilt → built → built on the example schema: the first answer is all-`xs:anyType`, the
+later ones are the typed trees -/
+example : MonotoneFrom false [(false, exTree), (true, exTree), (true, exTree)] ∧
+    runHistory exSchema Proxy.fresh [(false, exTree), (true, exTree)] =
+      [anyTypeAll exTree, applySchema exSchema exTree] := by
+  refine ⟨by simp [MonotoneFrom], ?_⟩
+  rw [proxy_history_eq_fresh _ _ (by simp [MonotoneFrom])]
+  rfl
+
+/-- what a proxy that cached a NEGATIVE answer would do (the defect this theorem excludes):
+after `[(false, t), (true, t)]` the second tree would still be all-`xs:anyType` -/
+example : anyTypeAll exTree ≠ applySchema exSchema exTree := by
+  intro h
+  have := congrArg (fun f => match f with
+    | Forest.elem a _ _ _ _ _ => a.xsdElem.isSome
+    | _ => false) h
+  revert this
+  decide
+
 /-! ## attribute typing -/
 
 /-- what the lazily built attribute list must carry for an instance attribute named `n` of an
